@@ -46,14 +46,22 @@ def run_one(mod, run_seed, replay=None, lenient=False, keep_trace=False, case=No
     gc.disable()
     t0 = time.perf_counter()
     info = None
+    def dump_tasks(s):
+        if os.environ.get("VERIF_DUMP_TASKS"):
+            res["tasks"] = ["%r: %s" % (t, " < ".join(core.stack_of(t, 14))) for t in s.tasks if t.state != core.DONE]
+
     def body(s):
         try:
             try:
                 return mod.scenario(s)
+            except Violation:
+                dump_tasks(s)
+                raise
             except core.SimSpin:
                 who, frames = s.spin_info or ("driver", [])
                 raise SimBudget("cpu spin without yield point in task %s: %s" % (who, " < ".join(frames[:6])))
         except (SimDeadlock, SimBudget) as e:
+            dump_tasks(s)
             # classify while the tasks are still parked (their stacks are gone after shutdown)
             if hasattr(mod, "on_hang"):
                 try:
@@ -593,6 +601,8 @@ def main(argv):
                 print("    " + l)
             for l in r.get("line_log", []):
                 print("    L " + l)
+            for l in r.get("tasks", []):
+                print("    T " + l)
             return 1
         print("replay did not reproduce: status=%s fp=%s digest_match=%s msg=%s"
               % (r["status"], r.get("fingerprint"), r["digest"] == rp["digest"], r.get("message")))
